@@ -434,6 +434,24 @@ def run_cfg(circ_in: Circuit, inp: tuple, m: int, edges: list, adj: list[set], c
     data = PassData(circ)
     model = MachineModel(m, CouplingGraph(edges, m))
     pl = cfg['pl']
+    # 'premap': the circuit arrives from an earlier mapping-aware stage (a previous mapping round after ApplyPlacement,
+    # or permutation-aware synthesis) that already recorded NON-identity mappings: logical qudit i of the original
+    # program enters on wire pre_i[i] and leaves on wire pre_f[i] of this circuit. Mapping must COMPOSE with them.
+    pre_i = pre_f = list(range(n))
+    if cfg.get('premap'):
+        ps = [q for q in perms_of(n) if list(q) != list(range(n))]
+        if ps:
+            pre_f = list(ps[(cfg['premap'] - 1) % len(ps)])
+            pre_i = list(ps[(cfg['premap'] * 2) % len(ps)]) if cfg.get('premap_init') else pre_i
+            data.initial_mapping = list(pre_i)
+            data.final_mapping = list(pre_f)
+
+    def eff(mapping: list, pre: list) -> list:
+        """Where WIRE w of the circuit handed to the mapping passes enters / leaves, from the mapping recorded per logical qudit."""
+        if len(mapping) != len(pre):
+            return list(mapping)
+        inv = {v: k for k, v in enumerate(pre)}
+        return [mapping[inv[w]] for w in range(len(pre))]
     kw = dict(decay_delta=float(cfg.get('decay', 0.001)), decay_reset_interval=int(cfg.get('dri', 5)),
               extended_set_size=int(cfg.get('ext', 20)), decay_reset_on_gate=bool(cfg.get('drog', True)))
     sym = cfg.get('sym', '')         # 'routing-fwd' | 'layout-fwd' | 'layout-bwd' (comma separated)
@@ -480,7 +498,7 @@ def run_cfg(circ_in: Circuit, inp: tuple, m: int, edges: list, adj: list[set], c
             if sorted(data.placement) != sorted(placement0) or not injective_into(data.placement, n, m):
                 rt.log('placement before', placement0, 'after layout', data.placement)
                 return 'layout:placement-not-a-permutation'
-            if list(data.initial_mapping) != list(range(n)) or list(data.final_mapping) != list(range(n)):
+            if list(data.initial_mapping) != pre_i or list(data.final_mapping) != pre_f:
                 return 'layout:touched-mappings'
         elif not pl_conn:
             return None
@@ -491,14 +509,14 @@ def run_cfg(circ_in: Circuit, inp: tuple, m: int, edges: list, adj: list[set], c
             return 'routing:changed-placement'
         ladj = adjacency(n, [(a, b) for a in range(n) for b in range(a + 1, n)
                              if placement1[b] in adj[placement1[a]]])
-        fp = wire_check(inp, circ, list(data.initial_mapping), list(data.final_mapping), n, ladj)
+        fp = wire_check(inp, circ, eff(list(data.initial_mapping), pre_i), eff(list(data.final_mapping), pre_f), n, ladj)
         if fp is not None:
             rt.log('after routing:', list(circ), 'placement', placement1, 'initial', data.initial_mapping,
                    'final', data.final_mapping)
             return 'routing:' + fp
         stage = 'apply'
         drive(ApplyPlacement(), circ, data)
-        fp = wire_check(inp, circ, list(data.initial_mapping), list(data.final_mapping), m, adj)
+        fp = wire_check(inp, circ, eff(list(data.initial_mapping), pre_i), eff(list(data.final_mapping), pre_f), m, adj)
         if fp is None and not (injective_into(data.placement, len(data.placement), m)
                                and induced_connected(list(data.placement), adj)):
             fp = 'placement-disconnected'
@@ -855,7 +873,9 @@ def cfg_list(kind: str) -> list:
                 for pl in ('greedy', 'trivial', 'static') for tp in (1, 2) for ext in (0, 1, 20)
                 for d in (0.0, 0.001)] + [{'pl': pl, 'layout': False, 'ext': ext, 'decay': d, 'dri': dri}
                                           for pl in ('greedy', 'trivial', 'static')
-                                          for (ext, d, dri) in ((20, 0.001, 5), (0, 0.0, 5), (1, 0.5, 1))]
+                                          for (ext, d, dri) in ((20, 0.001, 5), (0, 0.0, 5), (1, 0.5, 1))] + [
+            {'pl': pl, 'tp': 1, 'ext': 20, 'decay': 0.001, 'premap': k, 'premap_init': bool(k % 2)}
+            for pl in ('greedy', 'trivial') for k in (1, 2, 3, 4, 5)]
     if kind == 'quick':
         out = []
         for pl in ('greedy', 'trivial', 'static'):
@@ -866,6 +886,9 @@ def cfg_list(kind: str) -> list:
         out.append({'pl': 'greedy', 'layout': False, 'ext': 20, 'decay': 0.001})     # routing without layout
         out.append({'pl': 'static', 'layout': False, 'ext': 0, 'decay': 0.0})
         out.append({'pl': 'greedy', 'tp': 1, 'ext': 20, 'decay': 0.001, 'drog': False})   # decay_reset_on_gate off
+        # mappings recorded by an earlier stage must be composed with, not overwritten
+        out.append({'pl': 'greedy', 'tp': 1, 'ext': 20, 'decay': 0.001, 'premap': 1})
+        out.append({'pl': 'trivial', 'layout': False, 'ext': 0, 'decay': 0.0, 'premap': 2, 'premap_init': True})
         return out
     if kind == 'pam-quick':
         P = {'algo': 'pam'}
